@@ -60,6 +60,7 @@ PlanOf(p) ==
                     \cup { Cell("logchain", key, "-", LinAll[j], "any", Dirs[d], "-", "-", 0) :
                              key \in Range(GroupsQ), j \in 1..Len(LinAll), d \in 1..2 }
     [] p = "C04" -> ElementCells({"rplus", "lplus", "rminus", "lminus", "between"}, ThetaElem, LinJ, ThetaIn, LinAll, 0)
+                    \cup ElementCells({"alias"}, ThetaElem, <<"zero", "1", "1e3">>, ThetaIn, <<"1", "1e3">>, 0)
     [] p = "C05" -> ElementCells({"inverse", "log", "compose", "between", "rplus", "lplus", "rminus", "lminus", "act"},
                                  ThetaElem, LinJ, ThetaIn, LinJ, 1)
                     \cup TangentCells({"exp"}, ThetaIn, LinJ, 1)
